@@ -578,6 +578,15 @@ func baseDevice(name string, replies map[string][]msgSpec, onYield []msgSpec) dM
 	return dModSpec{Name: name, Replies: replies, OnYield: onYield}
 }
 
+// secondSize: the reply that follows the swept one is short for half of the sweep positions and several messages long for
+// the other half (a key pushed to the next message whose value then fills more than that whole message)
+func secondSize(f, send int) int {
+	if (f/2)%2 == 1 {
+		return 2*send + 100
+	}
+	return 30
+}
+
 func scenarios(thorough bool) []scen {
 	var out []scen
 	add := func(s scen) { out = append(out, s) }
@@ -627,7 +636,7 @@ func scenarios(thorough bool) []scen {
 					add(scen{Label: "reply-remainder", RecvMTU: p.recv, SendMTU: p.send,
 						Owner: []oModSpec{{Name: "m1", Rounds: [][]msgSpec{{{Name: "go", Size: 3, Seed: 1}}, {{Name: "go2", Size: 1, Seed: 4}}}}},
 						Device: []dModSpec{baseDevice("m1", map[string][]msgSpec{
-							"go":  {{Name: "first", Size: f, Seed: 2, Yield: y, Splits: splits}, {Name: "second-reply-with-a-long-name", Size: 30, Seed: 3}, {Name: "t", Size: 1, Seed: 9}},
+							"go":  {{Name: "first", Size: f, Seed: 2, Yield: y, Splits: splits}, {Name: "second-reply-with-a-long-name", Size: secondSize(f, send), Seed: 3}, {Name: "t", Size: 1, Seed: 9}},
 							"go2": {{Name: "u", Size: 2, Seed: 5}},
 						}, nil)}})
 				}
